@@ -76,6 +76,10 @@ def run_split(entry, data, rec, kw):
                 fp.setsampwidth(sw)
                 fp.setnchannels(ch)
                 fp.writeframes(data)
+            if rec.get("wav_trailer"):
+                from .c10 import add_wav_trailer
+
+                add_wav_trailer(path)  # the audio of a wav file is its data chunk, whatever chunks follow
             return list(auditok.split(path, large_file=entry == "wav_lazy_file", **kw))
         finally:
             try:
@@ -208,6 +212,9 @@ def explicit_cases():
         {"audio": dict(base, sw=2, ch=2, B=5, pat="1", tail=[3, 1], uc=-1), "win": [1, 4, 1, False, False], "entry": "bytes"},
         {"audio": dict(base, ch=1, pat="0" * 36000 + "0110", shape="late_activity"), "win": [1, 3, 0, False, False], "entry": "bytes"},
         {"audio": dict(base, ch=2, sw=2, pat="10" * 120, shape="many_events"), "win": [1, 1, 0, False, False], "entry": "region_fn"},
+        {"audio": dict(base, wav_trailer=True), "win": [1, 3, 1, False, False], "entry": "wav_file"},
+        {"audio": dict(base, wav_trailer=True, sw=2, ch=2, B=3, tail=[1, 1]), "win": [1, 3, 0, False, False], "entry": "wav_lazy_file"},
+        {"audio": dict(base, wav_trailer=True, sw=1, ch=1, B=2, tail=[1, 1], pat="1101101"), "win": [1, 3, 0, False, False], "entry": "wav_file"},
         {"bigwin": {"W": 70000, "sr": 16000, "thr": 33.0, "loud": 100, "tail": 4464, "entries": ["bytes", "raw_lazy_file", "wav_file"]}},
         {"bigwin": {"W": 131072 + 8192, "sr": 8192, "thr": 31.5, "loud": 100, "tail": 8192, "entries": ["region_method"]}},
     ]
@@ -217,6 +224,7 @@ def explicit_cases():
 def strategy(draw, maxwin):
     c = draw(audio.audio_case(maxwin=maxwin, shapes=True))
     c["entry"] = draw(st.sampled_from(ENTRIES))
+    c["audio"]["wav_trailer"] = draw(st.booleans())
     if c["entry"].startswith("region") and draw(st.booleans()):
         c["audio"]["region_opts"] = {
             "start": draw(st.one_of(st.none(), st.sampled_from([0.0, 2.5, 0.1, 1234.5]))),
